@@ -259,7 +259,7 @@ func VerifC14Reopen() {
 	vstub.Assert(gerr == nil, "C14 the write list is readable")
 	want := writers
 	if !explicit {
-		want = []string{"id-alice"}
+		want = []string{vstub.IDOf("alice")}
 	}
 	vstub.Assert(len(got) == len(want), "C14 the opened store's write list is the one given at creation (size)")
 	if len(got) == len(want) {
